@@ -7,7 +7,8 @@ RULE = ("generated programs (laid out with comments) x insertions D of C-preproc
         "before/after units, adjacent to comments): #if/#ifdef/#ifndef/#elif/#else/#endif/#include/#define/#undef/#line/#error/"
         "#warning/null directive/line markers, with backslash continuations and blanks after '#'; oracle: tree with Cpp_* nodes "
         "removed == tree(P); the Cpp_* nodes in tree order print to D in order (content compared modulo blanks); each appears in "
-        "str(tree). Both comment settings. non-trivial = >= 4 directives of >= 3 kinds")
+        "str(tree). Both comment settings. non-trivial = >= 4 directives of >= 3 kinds"
+        ' Correspondence: Fp.Reader item stream == real reader on every second source with directives, process_directives off and on.')
 ASSUMPTIONS = []
 TIE_MODULES = ["FparserModel.Reader", "FparserModel.Block"]
 
@@ -79,6 +80,10 @@ def run_case(case):
         res["counts"]["kind:" + kd] = 1
     res["sample"] = {"seed": case["seed"], "directives": D[:4]}
     o1 = real.try_parse(src, std=std, ignore_comments=not keep, free=True)
+    if case["seed"] % 2 == 1:
+        res["findings"] += util.reader_cosim(src, "free", ic=(not keep,), pd=False, case=case)
+        res["findings"] += util.reader_cosim(src, "free", ic=(not keep,), pd=True, case=case)
+        res["counts"]["reader-cosim"] = 1
     rp = {"case": case, "source": src, "base": base, "directives": D}
     ctx = {"std": std, "ignore_comments": not keep}
     if o1.kind != "tree":
